@@ -103,6 +103,28 @@ func (p *Parser) getRecur() int64 {
 	return p.recur
 }
 
+// needOperandOfReaderPrefix is called after a reader prefix (% ^ ~ ~@)
+// has been consumed: the text is unfinished until the prefixed expression
+// arrives, so if the input delivered so far ends here we ask for more
+// input, like ParseList does inside an open bracket. (Without this the
+// prefix swallowed the end-of-input marker and "%" | "abc" parsed to
+// (quote End) abc instead of (quote abc).)
+func (parser *Parser) needOperandOfReaderPrefix() (stopped bool, err error) {
+	for {
+		tok, err := parser.lexer.PeekNextToken(0)
+		if err != nil {
+			return false, err
+		}
+		if tok.typ != TokenEnd {
+			return false, nil
+		}
+		parser.sendMe.Err = ErrMoreInputNeeded
+		if ok := parser.yield(parser.sendMe); !ok {
+			return true, nil
+		}
+	}
+}
+
 func (parser *Parser) ParseList(depth int, endTokenTyp TokenType) (sx Sexp, err error) {
 	parser.recur++
 	defer func() { parser.recur-- }()
@@ -356,6 +378,9 @@ func (parser *Parser) ParseExpression(depth int) (res Sexp, err error) {
 		exp, err := parser.ParseInfix(depth + 1)
 		return exp, err
 	case TokenQuote:
+		if stopped, err := parser.needOperandOfReaderPrefix(); stopped || err != nil {
+			return SexpEnd, err
+		}
 		expr, err := parser.ParseExpression(depth + 1)
 		if err != nil {
 			return SexpNull, err
@@ -363,18 +388,27 @@ func (parser *Parser) ParseExpression(depth int) (res Sexp, err error) {
 		return MakeList([]Sexp{env.MakeSymbol("quote"), expr}), nil
 	case TokenCaret:
 		// '^' is now our syntax-quote symbol, not TokenBacktick, to allow go-style `string literals`.
+		if stopped, err := parser.needOperandOfReaderPrefix(); stopped || err != nil {
+			return SexpEnd, err
+		}
 		expr, err := parser.ParseExpression(depth + 1)
 		if err != nil {
 			return SexpNull, err
 		}
 		return MakeList([]Sexp{env.MakeSymbol("syntaxQuote"), expr}), nil
 	case TokenTilde:
+		if stopped, err := parser.needOperandOfReaderPrefix(); stopped || err != nil {
+			return SexpEnd, err
+		}
 		expr, err := parser.ParseExpression(depth + 1)
 		if err != nil {
 			return SexpNull, err
 		}
 		return MakeList([]Sexp{env.MakeSymbol("unquote"), expr}), nil
 	case TokenTildeAt:
+		if stopped, err := parser.needOperandOfReaderPrefix(); stopped || err != nil {
+			return SexpEnd, err
+		}
 		expr, err := parser.ParseExpression(depth + 1)
 		if err != nil {
 			return SexpNull, err
